@@ -45,8 +45,8 @@ HDR = {"8", "9", "10", "52", "43", "122"}
 
 
 class Driver:
-    def __init__(self, role, state):
-        self.b = Bench(role, "active" if state == "active" else "awaiting-mid", gap=100000)
+    def __init__(self, role, state, next_out=1):
+        self.b = Bench(role, "active" if state == "active" else "awaiting-mid", gap=100000, next_out=next_out)
         self.ep = self.b.ep
         self.ep.replay_filter = lambda m: "NOREPLAY" not in m.get(58, "")
         self.first = {}  # n -> (kind, raw, parsed)  first transmission under number n
@@ -254,10 +254,10 @@ class Driver:
         return klass, len(retrans), int("app" in kinds_in and len(kinds_in) > 1)
 
 
-def run_journal(acc, role, state, slots, requests, origin):
+def run_journal(acc, role, state, slots, requests, origin, next_out=1):
     """slots: list of slot kinds; requests: list of (b_rel, e_rel) or None to enumerate all."""
-    case = {"role": role, "state": state, "slots": list(slots), "requests": requests}
-    d = Driver(role, state)
+    case = {"role": role, "state": state, "slots": list(slots), "requests": requests, "next_out": next_out}
+    d = Driver(role, state, next_out)
     try:
         for s in slots:
             err = d.add_slot(s)
@@ -315,6 +315,11 @@ def exhaustive(acc, role, state, nslots, part, parts):
         for slots in (["app", "app"], ["app", "hb", "appg"]):
             run_journal(acc, role, state, slots, [(1, 0), (2, 0), (1, 0), (2, 3), "reset", "app", "app", "hb", "app", (1, 0), (2, 0), (2, 3), "reset", "app", (1, 0)], "epochs")
             run_journal(acc, role, state, slots, [(1, 0), "clock-back", (1, 0), (2, 3), "app", "clock-fwd", (1, 0), "clock-back", "app", (2, 0)], "clock-steps")
+            # a long-lived session: outbound numbers crossing 999999 -> 1000000 (EndSeqNo 999999 is an ordinary bounded end)
+            M = 1000000
+            run_journal(acc, role, state, ["app", "hb", "app", "app", "app", "hb", "app", "app"],
+                        [(M - 4, M - 1), (M - 3, 0), (M - 2, M), (M - 4, M - 1), (M, M + 2), (M - 1, M - 1), (M - 1, M)], "beyond-1e6", next_out=M - 4)
+            run_journal(acc, role, state, ["app", "app", "hb", "app"], [(2**31 - 2, 0), (2**31 - 1, 2**31), (2**31, 2**31)], "beyond-2^31", next_out=2**31 - 2)
     k = 0
     for L in range(0, nslots + 1):
         for slots in itertools.product(SLOTS, repeat=L):
@@ -374,4 +379,4 @@ def replay(acc, case):
     reqs = case["requests"]
     if reqs is not None:
         reqs = [tuple(r) if isinstance(r, list) else r for r in reqs]
-    run_journal(acc, case["role"], case["state"], case["slots"], reqs, "replay")
+    run_journal(acc, case["role"], case["state"], case["slots"], reqs, "replay", next_out=case.get("next_out") or 1)
